@@ -45,7 +45,7 @@ Definition norm_ostr (dflt : str) (o : option str) : option str :=
 Definition norm_id (o : option str) : option str :=
   match o with
   | Some (c :: s) =>
-      if str_eqb (c :: s) (lit "None") || str_eqb (c :: s) (lit "search") then None else o
+      if str_eqb (c :: s) (k_cap_none) || str_eqb (c :: s) (k_search) then None else o
   | _ => None
   end.
 
@@ -55,7 +55,7 @@ Definition norm_flavor (fa : option str) (efl : str) (o : option str) : option s
 
 Definition norm_dep (fa : option str) (efl : str) (d : dep) : dep :=
   mkDep (d_product d) (d_version d) (norm_flavor fa efl (d_flavor d))
-        (norm_ostr (lit "none") (d_table d)) (norm_ostr (lit "none") (d_dir d))
+        (norm_ostr (k_low_none) (d_table d)) (norm_ostr (k_low_none) (d_dir d))
         (norm_id (d_distid d)) false false [].
 
 Definition written (noopt : bool) (ds : list dep) : list dep :=
@@ -63,8 +63,8 @@ Definition written (noopt : bool) (ds : list dep) : list dep :=
 
 Definition norm_manifest (noopt : bool) (fa : option str) (efl : str) (m : manifest) : manifest :=
   mkManifest
-    (Some (match mf_product m with Some p => p | None => lit "UNKNOWN_PRODUCT" end))
-    (Some (match mf_version m with Some v => v | None => lit "generic" end))
+    (Some (match mf_product m with Some p => p | None => k_unknown_product end))
+    (Some (match mf_version m with Some v => v | None => k_generic end))
     (map (norm_dep fa efl) (written noopt (mf_deps m))).
 
 (* ------------------------------------------------------------------ tag lists *)
